@@ -142,6 +142,12 @@ POSTS = {
     "slicing_reconf": {"slicing_reconf_opts": {"target_size": 4, "max_repeats": 4,
                                                "reconf_opts": {"subtree_size": 3, "maxiter": 2}}},
     "anneal": {"simulated_annealing_opts": {"tsteps": 2, "numiter": 3}},
+    "reconf_forested": {"reconf_opts": {"forested": True, "num_trees": 2, "num_restarts": 1, "subtree_maxiter": 2,
+                                         "subtree_size": 3}},
+    "slicing_reconf_forested": {"slicing_reconf_opts": {"forested": True, "target_size": 4, "num_trees": 2, "max_repeats": 4,
+                                                         "reconf_opts": {"subtree_size": 3, "maxiter": 2}}},
+    "anneal_sliced": {"simulated_annealing_opts": {"tsteps": 2, "numiter": 3, "target_size": 4}},
+    "slicing+reconf": {"slicing_opts": {"target_slices": 2}, "reconf_opts": {"subtree_size": 3, "maxiter": 3}},
 }
 OBJECTIVES = ["flops", "size", "write", "combo", "combo-256", "limit", "limit-8"]
 
